@@ -132,13 +132,14 @@ const P = "C04"
 
 func main() {
 	r := evid.New(P, "exploration")
-	r.Rule("operation sequences over create, derive (all scopes, both branches), new account, custom scope, xpub-account import, import of private key / public key / P2SH script / witness script (secret and public) / taproot script, passphrase change (public and private, locked and unlocked), lock/unlock, mark-used, restart and convert-to-watching-only (two of three conversions preceded by an attempt that fails at a random database write and is rolled back) on a real manager over a real bdb file. The harness knows every secret because it chose or derived them (independent BIP32 oracle): seed, root / purpose / coin-type / account private keys raw, as chain-code||0x00||key and as base58 xprv strings, every issued address's private key raw and WIF, imported keys, secret scripts, every passphrase ever used; and the public counterparts (xpub strings, chain-code||pubkey, 33-byte and x-only public keys, hash160, script addresses, address strings). An 8-byte-prefix indexed multi-pattern scanner checks (a) every key and value at Put time and (b) the RAW FILE IMAGE (walletdb Copy = bbolt WriteTo: all pages incl. freed ones) after every operation, i.e. every image a crash between commits could leave. After conversion: restart, every address still resolves, every passphrase ever used is refused with a watching-only error, the full private-access battery fails. Non-trivial = sequence with >= 30 secret patterns and >= 10 scanned images; distinct = distinct op-kind sequences.")
+	r.Rule("operation sequences over create, derive (all scopes, both branches), new account, custom scope, xpub-account import, import of private key / public key / P2SH script / witness script (secret and public) / taproot script, passphrase change (public and private, locked and unlocked), lock/unlock, mark-used, restart, deletion of the master HD root key (NeuterRootKey) and convert-to-watching-only (two of three conversions preceded by an attempt that fails at a random database write and is rolled back) on a real manager over a real bdb file. The harness knows every secret because it chose or derived them (independent BIP32 oracle): seed, root / purpose / coin-type / account private keys raw, as chain-code||0x00||key and as base58 xprv strings, every issued address's private key raw and WIF, imported keys, secret scripts, every passphrase ever used; and the public counterparts (xpub strings, chain-code||pubkey, 33-byte and x-only public keys, hash160, script addresses, address strings). An 8-byte-prefix indexed multi-pattern scanner checks (a) every key and value at Put time and (b) the RAW FILE IMAGE (walletdb Copy = bbolt WriteTo: all pages incl. freed ones) after every operation, i.e. every image a crash between commits could leave. After conversion: restart, every address still resolves, every passphrase ever used is refused with a watching-only error, the full private-access battery fails. Non-trivial = sequence with >= 30 secret patterns and >= 10 scanned images; distinct = distinct op-kind sequences.")
 	r.Trusted("walletdb.DB.Copy returns the raw page image", "independent BIP32 oracle for the key material", "hdkeychain/btcutil base58 encoders for the string forms")
 	r.Assume("a byte scan cannot tell under which key a ciphertext is sealed (C05 covers access)", "patterns straddling a page boundary between two database versions are not detected", "public material is enforced throughout: these histories never record a transaction")
 	dir := r.TempDir("c04")
 	defer os.RemoveAll(dir)
 	wt := mgr.DefaultWeights
 	wt.Convert, wt.ImportPriv, wt.ImportScript, wt.ImportWScript, wt.ImportTScript, wt.ChangePriv, wt.ChangePub, wt.Unlock = 2, 5, 4, 4, 3, 5, 4, 10
+	wt.Neuter = 2
 	cfg := mgr.Config{Weights: wt, MinSteps: 10, MaxSteps: r.N(50, 60), C04: true}
 	r.Parallel("history", r.N(60, 1500), evid.Workers(), func(i int, cs int64) {
 		res := mgr.RunHistory(cfg, cs, dir)
@@ -150,6 +151,7 @@ func main() {
 	r.Require("c04-writes-scanned", 5000)
 	r.Require("c04-secret-patterns", 3000)
 	r.Require("c04-conversions-checked", 5)
+	r.Require("c04-post-conversion-private-key-open-attempts", 50)
 	r.Require("c04-conversions-retried-after-a-failed-attempt", 3)
 	r.Require("op:importpriv", 30)
 	os.Exit(r.Finish())
